@@ -121,6 +121,8 @@ def gen_design(r, features=("cname", "attr", "param", "names", "latch", "conn", 
             it["attr"] = {"src": "file.v:%d" % uid[0]}
         if "param" in features and r.random() < 0.3:
             it["param"] = {"INIT": "".join(r.choice("01") for _ in range(8))}
+            for k_ in range(r.choice([0, 0, 1, 2, 9])):      # several .param lines on one instance (and ten of them)
+                it["param"]["P%d" % k_] = r.choice(["sync", "1", "0x%X" % r.randrange(256), "true"])
         items.append(it)
     # leftover bits of a started bus stay undriven but exist only if used; drop them
     driven = [nb for it in items for (p, b, nb) in it["pins"] if nb is not None and (p.startswith("O") or p in ("out", "output"))]
